@@ -6,6 +6,11 @@ Families of cells
   lg     linear-Gaussian BayesianProblems with a LinearModel (closed-form MAP route, direct/Cholesky
          sampling route): full product sizes x likelihood-Gaussian spec (4 parameterisations x
          scalar/vector/diagonal/dense) x prior-Gaussian spec (same 16) x model (matrix / function backed)
+         [sub-facet of a sqrtcov / sqrtprec specification: sign / orientation of the square root - positive,
+         all-negative, mixed-sign scalar / vector / diagonal-matrix roots; dense R, -R, R with one generator
+         (column of a sqrtcov, row of a sqrtprec) negated, symmetric root, lower- and upper-triangular factor,
+         triangular factor with a negative diagonal entry: all denote the SAME reference covariance, on the noise
+         and on the prior side, for MAP (closed form and optimiser), ML and direct sampling]
          x domain geometry (default / Continuous1D / StepExpansion / KLExpansion all modes /
          KLExpansion truncated / MappedGeometry) x forward-model definition (which operator: dense catalogue
          matrix / node selection x[::2], x[1:], x; how it is handed over: dense ndarray, scipy.sparse csr / csc,
@@ -40,7 +45,10 @@ from vfw import refs
 from vfw.stream import Stream, affine_probe
 
 PROPERTY = "C15"
-RULE = ("cells = family x full configuration product (see BOUND) of sizes, Gaussian specifications, geometry and "
+RULE = ("cells = family x full configuration product (see BOUND) of sizes, Gaussian specifications (parameterisation x "
+        "shape x, for sqrtcov / sqrtprec, sign / orientation of the square root: std / all-negative / mixed-sign "
+        "scalar, vector and diagonal-matrix roots, dense R / -R / one generator negated / symmetric / lower / upper "
+        "triangular / triangular with a negative diagonal entry - every one a root of the same reference covariance), geometry and "
         "forward-model definition (operator: dense catalogue matrix / node selections x[::2], x[1:], x; handed over as "
         "dense ndarray / scipy.sparse matrix / forward+adjoint functions (LinearModel) / forward function with or "
         "without Jacobian (generic Model); functions returning a freshly computed ndarray / a view of their input or "
@@ -56,6 +64,13 @@ BOUND = {
              "x {as given, compute_cov()} x {MAP, direct sampling on the basis}; ml: 3 sizes x 16 specs x 2 models x "
              "6 geometries; lgopt: (3,2) x 34 spec pairs x 2 generic models x 3 geometries x 2 means; nl: 14 problems "
              "x 1 variant; lattice: 4n neighbours at 0.05/0.5 sigma; value catalogue = seed % 3; "
+             "square-root orientation: the 20 non-standard oriented specs (sqrtcov, sqrtprec) x (scalar: neg; vector, "
+             "diag: neg, mixed; dense: neg, flip, lower, lowerflip + upper (sqrtcov) / sym (sqrtprec)): lg: each on the "
+             "likelihood side and each on the prior side against a scalar-cov partner + 6 pairs oriented on both sides "
+             "(46 pairs) x {(3,2) matrix model default geometry, (2,3) function model StepExpansion} (x 4 means x "
+             "{as given, compute_cov()} x {MAP, direct sampling}); ml: 20 oriented noise specs x 3 sizes x 2 models x "
+             "{default, StepExpansion} + vector neg / mixed for sqrtcov, sqrtprec at dimension 76; lgopt: (3,2) x 46 "
+             "pairs x 2 generic models x default geometry x 2 means; "
              "forward-model definitions: lg: {catalogue matrix as csr; catalogue matrix as functions returning "
              "CUQIarray; x[::2], x[1:], x as functions returning views / the input object} x sizes (3,2),(2,3) "
              "(selections: n in {2,3}, m = number of selected nodes) x 6 geometries x 5 spec pairs (every "
@@ -65,7 +80,11 @@ BOUND = {
     "thorough": "lg: (m,n) in {(3,2),(3,3),(2,3)} x 16 likelihood specs x 16 prior specs x 2 models x 6 geometries, "
                 "plus (1,2),(2,1),(4,3) x 34 spec pairs x 2 x 6 (each cell x 4 means x 2 x {MAP, direct sampling}); "
                 "ml: 3 sizes x 16 x 2 x 6 x 2 start points; lgopt: 3 sizes x 16 x 16 x 2 x 3 x 2; nl: 14 problems x 3 "
-                "variants; value catalogue = seed % 3; forward-model definitions: lg: the 5 quick definitions + "
+                "variants; value catalogue = seed % 3; square-root orientation: lg: (3,2) matrix model default geometry: full "
+                "product of the 21 (20 oriented + scalar cov) likelihood x 21 prior specs (440 pairs), every other of 3 "
+                "sizes x 2 models x 6 geometries: 46 pairs; ml: 20 oriented specs x 3 sizes x 2 models x 6 geometries x 2 "
+                "starts + vector neg / mixed, scalar neg at dimension 76; lgopt: (3,2): 440 pairs, (3,3),(2,3): 46 pairs, "
+                "x 2 generic models x 3 geometries x 2 means; forward-model definitions: lg: the 5 quick definitions + "
                 "catalogue matrix as csc: sizes (3,2),(3,3),(2,3) / n in {2,3} x 6 geometries x 34 spec pairs; each "
                 "selection x[::2], x[1:], x additionally as dense matrix / csr matrix / functions computing S@x / "
                 "functions returning CUQIarray(S@x): n in {2,3} x 6 geometries x (34 pairs for default and Continuous1D "
@@ -76,8 +95,17 @@ BOUND = {
 ASSUMPTIONS = [
     "the forward map is taken as a black box: the effective parameter-to-data matrix is [forward(e_i)-forward(0)] "
     "of the model under test (its correctness is the subject of C07/C12/C13), densities are re-computed in dense numpy",
-    "dense square roots passed as sqrtcov are symmetric (R R^T = R^T R), so the sqrtcov convention question of C04 "
-    "does not enter",
+    "square roots follow the documented (and implemented) conventions cov = sqrtcov @ sqrtcov.T and prec = "
+    "sqrtprec.T @ sqrtprec; the standard dense sqrtcov is the symmetric root, the standard dense sqrtprec the "
+    "upper-triangular Cholesky factor; every non-standard orientation is verified (dense numpy) to reproduce the "
+    "reference covariance before it is handed over",
+    "a square root with negative entries (negative scalar / vector / diagonal entries, -R, one generator negated) is "
+    "taken as a legal specification of the Gaussian whose covariance is R R^T resp. (R^T R)^-1 - the documentation "
+    "words the scalar / vector case as 'standard deviation' without excluding signs and the implementation accepts "
+    "them; as everywhere, a raise at construction or at the estimate is accepted as refusal",
+    "orientation representatives are sign matrices and the three factor forms; general orthogonal mixing R Q (dense, "
+    "non-triangular, non-symmetric roots) and rectangular roots are not enumerated; the negated generator is the "
+    "middle one (index dim // 2)",
     "an optimiser result with info['success'] false is counted as a refusal, not as a returned estimate",
     "gradient tolerance = 20 x what scipy's default stopping rules (gtol/pgtol 1e-5, factr 1e7, 2-point differences "
     "with step 1.5e-8) guarantee on the reference Hessian; neighbour tolerance 1e-6 (1+|logd|)",
@@ -95,12 +123,18 @@ SHAPES = ["scalar", "vector", "diag", "dense"]
 GEOMS = ["default", "cont", "step", "klall", "kltrunc", "mapped"]
 MEANS = ["zero", "scalar", "zerovec", "vector"]
 BASE = {"lp": "cov", "ls": "scalar", "pp": "cov", "ps": "scalar", "mean": "zerovec", "model": "matrix",
-        "geom": "default", "precov": False, "op": "full", "ret": "fresh"}
-FACET_ORDER = ["precov", "mean", "geom", "ret", "op", "model", "lp", "ls", "pp", "ps"]
-FACET_NAMES = ["model", "op", "ret", "geom", "lp", "ls", "pp", "ps", "mean", "precov"]
+        "geom": "default", "precov": False, "op": "full", "ret": "fresh", "lo": "std", "po": "std"}
+FACET_ORDER = ["precov", "mean", "geom", "ret", "op", "model", "lo", "po", "lp", "ls", "pp", "ps"]
+FACET_NAMES = ["model", "op", "ret", "geom", "lp", "ls", "lo", "pp", "ps", "po", "mean", "precov"]
 # reduction targets tried in this order (default: the baseline value only); a selection operator that cannot be
 # reduced to the full catalogue matrix (a view-returning definition only exists for selections) is reduced to the identity
 REDUCE_TO = {"op": ["full", "ident"]}
+# reductions that only apply to particular current values: a generic model without Jacobian is reduced to the one with
+# Jacobian where the matrix model (closed-form route) does not fail; a sign pattern of a square root is reduced to the
+# positive triangular factor / to "all entries negated" where the standard root does not fail
+REDUCE_FROM = {("model", "generic-nograd"): ["matrix", "generic-jac"],
+               ("lo", "mixed"): ["std", "neg"], ("lo", "flip"): ["std", "neg"], ("lo", "lowerflip"): ["std", "lower", "neg"],
+               ("po", "mixed"): ["std", "neg"], ("po", "flip"): ["std", "neg"], ("po", "lowerflip"): ["std", "lower", "neg"]}
 
 # ---- forward-model definition facet -------------------------------------------------------------------------
 # op    which linear operator (function-value space -> data): "full" = dense catalogue matrix; selections of nodes:
@@ -121,6 +155,51 @@ SMALL_PAIRS = [(("cov", "scalar"), ("cov", "scalar")), (("prec", "vector"), ("sq
                (("sqrtcov", "diag"), ("prec", "vector")), (("sqrtprec", "dense"), ("cov", "dense")),
                (("cov", "dense"), ("sqrtprec", "scalar"))]
 SMALL_SPECS = [("cov", "scalar"), ("prec", "vector"), ("sqrtcov", "diag"), ("sqrtprec", "dense")]
+
+# ---- sign / orientation of a square root (sub-facet of the Gaussian specification, sqrtcov / sqrtprec only) ------
+# A square root is not unique: with cov = R R^T (sqrtcov) / prec = R^T R (sqrtprec) every R Q, Q orthogonal (resp. Q R),
+# denotes the same Gaussian.  Enumerated representatives, all of the SAME reference covariance as "std":
+#   scalar        std = +s                 neg = -s
+#   vector, diag  std = all entries > 0    neg = all entries < 0      mixed = alternating signs (+,-,+,..)
+#   dense         std = symmetric positive definite root (sqrtcov) / upper-triangular Cholesky factor (sqrtprec)
+#                 neg = -std               flip = std with ONE generator negated (a column of a sqrtcov, a row of a
+#                 sqrtprec: the negation that leaves R R^T resp. R^T R unchanged)
+#                 sym / lower / upper = symmetric root, lower- and upper-triangular factor with positive diagonal
+#                 lowerflip = lower-triangular factor with one negative diagonal entry
+SQRT_PARAMS = ("sqrtcov", "sqrtprec")
+ORIENT_VALUES = {"scalar": ["neg"], "vector": ["neg", "mixed"], "diag": ["neg", "mixed"],
+                 "dense": ["neg", "flip", "sym", "lower", "upper", "lowerflip"]}
+DENSE_STD = {"sqrtcov": "sym", "sqrtprec": "upper"}
+
+
+def _orients(param, shape):
+    """Non-standard orientations of the specification (param, shape); none for cov / prec."""
+    if param not in SQRT_PARAMS:
+        return []
+    return [o for o in ORIENT_VALUES[shape] if not (shape == "dense" and o == DENSE_STD[param])]
+
+
+def _spec_exists(param, shape, orient):
+    return orient == "std" or orient in _orients(param, shape)
+
+
+ORIENTED_SPECS = [(p, sh, o) for p in SQRT_PARAMS for sh in SHAPES for o in _orients(p, sh)]
+PLAIN = ("cov", "scalar", "std")
+# both sides oriented at once (every shape and every dense form at least once on each side)
+ORIENT_MIXED = [(("sqrtprec", "vector", "mixed"), ("sqrtcov", "dense", "lower")),
+                (("sqrtcov", "diag", "neg"), ("sqrtprec", "vector", "mixed")),
+                (("sqrtprec", "dense", "lowerflip"), ("sqrtprec", "dense", "flip")),
+                (("sqrtcov", "scalar", "neg"), ("sqrtprec", "scalar", "neg")),
+                (("sqrtcov", "dense", "upper"), ("sqrtcov", "vector", "mixed")),
+                (("sqrtprec", "dense", "sym"), ("sqrtprec", "diag", "mixed"))]
+
+
+def _orient_pairs(full):
+    """(likelihood spec, prior spec) triples (param, shape, orient) with at least one non-standard orientation."""
+    if full:
+        both = ORIENTED_SPECS + [PLAIN]
+        return [(l, p) for l in both for p in both if (l, p) != (PLAIN, PLAIN)]
+    return [(l, PLAIN) for l in ORIENTED_SPECS] + [(PLAIN, p) for p in ORIENTED_SPECS] + ORIENT_MIXED
 
 
 def _fun_dim(geom, n):
@@ -187,6 +266,17 @@ def cells(tier, seed):
                 for (lp, ls), (pp, ps) in pairs:
                     yield {"fam": "lg", "m": _range_dim(op, geom, n, m), "n": n, "cat": k, "lp": lp, "ls": ls,
                            "pp": pp, "ps": ps, "model": model, "geom": geom, "op": op, "ret": ret}
+    # ---- lg, sign / orientation of the square roots (likelihood and prior side)
+    if thorough:
+        combos = [((m, n), model, geom) for (m, n) in [(3, 2), (3, 3), (2, 3)] for model in ("matrix", "function")
+                  for geom in GEOMS]
+    else:
+        combos = [((3, 2), "matrix", "default"), ((2, 3), "function", "step")]
+    for ((m, n), model, geom) in combos:
+        full = thorough and ((m, n), model, geom) == ((3, 2), "matrix", "default")
+        for (lp, ls, lo), (pp, ps, po) in _orient_pairs(full):
+            yield {"fam": "lg", "m": m, "n": n, "cat": k, "lp": lp, "ls": ls, "lo": lo, "pp": pp, "ps": ps, "po": po,
+                   "model": model, "geom": geom}
     # ---- ml
     for (m, n) in [(3, 2), (3, 3), (2, 3)]:
         for lp in PARAMS:
@@ -200,6 +290,17 @@ def cells(tier, seed):
         for ls in (("vector",) if not thorough else ("vector", "scalar", "diagonal")):
             yield {"fam": "ml", "m": 76, "n": 2, "cat": k, "lp": lp, "ls": ls, "model": "matrix", "geom": "default",
                    "starts": 2 if thorough else 1}
+    # ---- ml, sign / orientation of the square root that specifies the noise
+    for (m, n) in [(3, 2), (3, 3), (2, 3)]:
+        for (lp, ls, lo) in ORIENTED_SPECS:
+            for model in ("matrix", "function"):
+                for geom in (GEOMS if thorough else ("default", "step")):
+                    yield {"fam": "ml", "m": m, "n": n, "cat": k, "lp": lp, "ls": ls, "lo": lo, "model": model,
+                           "geom": geom, "starts": 2 if thorough else 1}
+    for lp in SQRT_PARAMS:          # above the sparse-storage switch (dimension 76 > 75)
+        for (ls, lo) in [("vector", "neg"), ("vector", "mixed")] + ([("scalar", "neg")] if thorough else []):
+            yield {"fam": "ml", "m": 76, "n": 2, "cat": k, "lp": lp, "ls": ls, "lo": lo, "model": "matrix",
+                   "geom": "default", "starts": 2 if thorough else 1}
     # ---- ml, forward-model definition facet
     for (op, model, ret) in (DEFS_THOROUGH if thorough else DEFS_QUICK):
         if op == "full":
@@ -219,6 +320,14 @@ def cells(tier, seed):
                     for mean in ("zerovec", "vector"):
                         yield {"fam": "lgopt", "m": m, "n": n, "cat": k, "lp": lp, "ls": ls, "pp": pp, "ps": ps,
                                "model": model, "geom": geom, "mean": mean}
+    # ---- lgopt, sign / orientation of the square roots (likelihood and prior side)
+    for (m, n) in ([(3, 2), (3, 3), (2, 3)] if thorough else [(3, 2)]):
+        for (lp, ls, lo), (pp, ps, po) in _orient_pairs(thorough and (m, n) == (3, 2)):
+            for model in ("generic-jac", "generic-nograd"):
+                for geom in (("default", "step", "mapped") if thorough else ("default",)):
+                    for mean in ("zerovec", "vector"):
+                        yield {"fam": "lgopt", "m": m, "n": n, "cat": k, "lp": lp, "ls": ls, "lo": lo, "pp": pp,
+                               "ps": ps, "po": po, "model": model, "geom": geom, "mean": mean}
     # ---- lgopt, forward-model definition facet
     for (op, ret) in (GENERIC_DEFS_THOROUGH if thorough else GENERIC_DEFS):
         for (m, n) in ([(3, 2), (2, 3)] if op == "full" else [(None, 2), (None, 3)]):
@@ -243,25 +352,71 @@ def _sym_sqrt(C):
     return (V * np.sqrt(w)) @ V.T
 
 
-def _spec(dim, param, shape, k, which):
-    """(argument handed to cuqi.distribution.Gaussian, dense reference covariance)."""
+def _factor(M, form):
+    """F with F F^T = M: symmetric positive definite root / lower / upper triangular factor (positive diagonal)."""
+    if form == "sym":
+        return _sym_sqrt(M)
+    if form == "lower":
+        return np.linalg.cholesky(M)
+    if form == "upper":
+        J = np.eye(M.shape[0])[::-1]
+        return J @ np.linalg.cholesky(J @ M @ J) @ J
+    raise ValueError(form)
+
+
+def _dense_root(C, param, orient):
+    """Dense square root of the covariance C in the convention of `param`: sqrtcov R R^T = C, sqrtprec R^T R = C^-1.
+
+    Everything is built from F with F F^T = M (M = C resp. C^-1): sqrtcov R = F, sqrtprec R = F^T (so a lower-triangular
+    sqrtprec is the transpose of the upper-triangular F); negating a column of F (a generator) leaves M unchanged."""
+    dim = C.shape[0]
+    M = C if param == "sqrtcov" else np.linalg.inv(C)
+    std = DENSE_STD[param]
+    form = {"std": std, "neg": std, "flip": std, "lowerflip": "lower"}.get(orient, orient)
+    if param == "sqrtprec":
+        form = {"lower": "upper", "upper": "lower", "sym": "sym"}[form]
+    F = _factor(M, form)
+    if orient == "neg":
+        F = -F
+    elif orient in ("flip", "lowerflip"):
+        F = F.copy()
+        F[:, dim // 2] *= -1.0
+    return F if param == "sqrtcov" else F.T.copy()
+
+
+def _spec(dim, param, shape, k, which, orient="std"):
+    """(argument handed to cuqi.distribution.Gaussian, dense reference covariance).
+
+    The reference covariance depends on (dim, shape, k, which) only - never on the parameterisation or on the
+    sign / orientation of a square root."""
+    if not _spec_exists(param, shape, orient):
+        raise HarnessError("no specification %s/%s/%s" % (param, shape, orient))
     off = 0 if which == "lik" else 1
     if shape == "scalar":
         c = [0.25, 0.5, 2.0][(k + off) % 3]
         arg = {"cov": c, "prec": 1 / c, "sqrtcov": math.sqrt(c), "sqrtprec": 1 / math.sqrt(c)}[param]
-        return arg, c * np.eye(dim)
+        return (-arg if orient == "neg" else arg), c * np.eye(dim)
     if shape in ("vector", "diag"):
         v = np.array([0.25, 1.0, 0.5, 2.0, 4.0])[(np.arange(dim) + k + off) % 5]
         a = {"cov": v, "prec": 1 / v, "sqrtcov": np.sqrt(v), "sqrtprec": 1 / np.sqrt(v)}[param]
+        if orient == "neg":
+            a = -a
+        elif orient == "mixed":
+            a = a * np.where(np.arange(dim) % 2 == 0, 1.0, -1.0)
         return (a.copy() if shape == "vector" else np.diag(a)), np.diag(v)
     C = refs.spd_matrix(dim, k + off)
     if param == "cov":
         return C.copy(), C
     if param == "prec":
         return np.linalg.inv(C), C
-    if param == "sqrtcov":
+    if param == "sqrtcov" and orient == "std":
         return _sym_sqrt(C), C
-    R = np.linalg.cholesky(np.linalg.inv(C)).T     # R^T R = precision (documented and implemented alike)
+    if param == "sqrtprec" and orient == "std":
+        return np.linalg.cholesky(np.linalg.inv(C)).T, C    # R^T R = precision (documented and implemented alike)
+    R = _dense_root(C, param, orient)
+    back = R @ R.T if param == "sqrtcov" else np.linalg.inv(R.T @ R)
+    if not close(back, C, 1e-10):
+        raise HarnessError("%s/%s is not a square root of the reference covariance" % (param, orient))
     return R, C
 
 
@@ -331,8 +486,8 @@ def _build(size, k, cfg):
             M = Model(fwd, range_geometry=m, domain_geometry=dg)
         else:
             raise ValueError(kind)
-    la, Ce = _spec(m, cfg["lp"], cfg["ls"], k, "lik")
-    pa, Cx = _spec(n, cfg["pp"], cfg["ps"], k, "pri")
+    la, Ce = _spec(m, cfg["lp"], cfg["ls"], k, "lik", cfg.get("lo", "std"))
+    pa, Cx = _spec(n, cfg["pp"], cfg["ps"], k, "pri", cfg.get("po", "std"))
     marg, mu = _mean(cfg["mean"], n, k)
     x = Gaussian(marg, geometry=n, **{cfg["pp"]: pa})
     # link="model": the model object itself is the mean (its argument is already called x), not a renamed copy M(x)
@@ -643,11 +798,14 @@ def _attribute(size, k, cfg, fails):
         for f in FACET_ORDER:
             if f not in cur:
                 continue
-            for target in REDUCE_TO.get(f, [BASE[f]]):
+            for target in REDUCE_FROM.get((f, cur[f]), REDUCE_TO.get(f, [BASE[f]])):
                 if cur[f] == target:
                     break
                 trial = dict(cur)
                 trial[f] = target
+                if not (_spec_exists(trial["lp"], trial["ls"], trial.get("lo", "std"))
+                        and _spec_exists(trial["pp"], trial["ps"], trial.get("po", "std"))):
+                    continue        # e.g. a sign pattern of a square root has no counterpart for cov / prec
                 try:
                     still = fails(trial)
                 except HarnessError:
@@ -713,7 +871,8 @@ def _eval_lg(cell):
         for precov in (False, True):
             cfg = {"lp": cell["lp"], "ls": cell["ls"], "pp": cell["pp"], "ps": cell["ps"], "mean": mean,
                    "model": cell["model"], "geom": cell["geom"], "precov": precov,
-                   "op": cell.get("op", "full"), "ret": cell.get("ret", "fresh")}
+                   "op": cell.get("op", "full"), "ret": cell.get("ret", "fresh"),
+                   "lo": cell.get("lo", "std"), "po": cell.get("po", "std")}
             tag = "%s/%s" % (mean, "precov" if precov else "asgiven")
             prep = _prepare(size, k, cfg)
             # ---- MAP
@@ -761,7 +920,14 @@ def _eval_lg(cell):
                 res.outcomes.add("ML-after-MAP:" + st3 + (":" + "+".join(sorted(kinds3)) if kinds3 else ""))
                 if st3.startswith("judged"):
                     res.evaluations += 1
-                    if kinds3:
+                    # the same call on a fresh object (no MAP() before it): when that fails alike, the history is not
+                    # what matters and the failure is reported as a plain ML() failure of this configuration
+                    stf, kindsf, obsf = _op_estimate(size, k, cfg3, "ML") if kinds3 else ("", {}, None)
+                    if kinds3 and stf.startswith("judged") and _primary(kinds3) in _names(kindsf):
+                        res.count("ML-after-MAP-fails-like-ML-on-a-fresh-object")
+                        _report(res, size, k, cfg3, _oplabel(stf), "BayesianProblem.ML", kindsf, obsf,
+                                lambda c: _op_estimate(size, k, c, "ML", judge_failed=True))
+                    elif kinds3:
                         res.fail("C15|BayesianProblem.ML|%s-%s|after-MAP-on-same-object" % (_oplabel(st3), _primary(kinds3)),
                                  "ML() called after MAP() on the same problem object, %s: %s" % (
                                      _cfgstr(cfg), "; ".join(kinds3[q] for q in KIND_ORDER if q in kinds3)),
@@ -773,7 +939,7 @@ def _eval_lg(cell):
                 prep4 = _prepare(size, k, cfg4)
                 bad4, P4, G4, z4 = prep4
                 if not bad4:
-                    pa2, Cx2 = _spec(cell["n"], cfg["pp"], cfg["ps"], (k + 1) % 3, "pri")
+                    pa2, Cx2 = _spec(cell["n"], cfg["pp"], cfg["ps"], (k + 1) % 3, "pri", cfg["po"])
                     try:
                         setattr(P4.BP.prior, cfg["pp"], pa2)
                         assigned = True
@@ -822,7 +988,7 @@ def _eval_ml(cell):
     size, k = (cell["m"], cell["n"]), cell["cat"]
     cfg = {"lp": cell["lp"], "ls": cell["ls"], "pp": "cov", "ps": "scalar", "mean": "zerovec",
            "model": cell["model"], "geom": cell["geom"], "precov": False,
-           "op": cell.get("op", "full"), "ret": cell.get("ret", "fresh")}
+           "op": cell.get("op", "full"), "ret": cell.get("ret", "fresh"), "lo": cell.get("lo", "std"), "po": "std"}
     judged = 0
     for si in range(cell["starts"]):
         x0 = None if si == 0 else refs.dyadic_vec(cell["n"], k + 4, scale=0.5)
@@ -852,7 +1018,8 @@ def _eval_lgopt(cell):
     size, k = (cell["m"], cell["n"]), cell["cat"]
     cfg = {"lp": cell["lp"], "ls": cell["ls"], "pp": cell["pp"], "ps": cell["ps"], "mean": cell["mean"],
            "model": cell["model"], "geom": cell["geom"], "precov": False,
-           "op": cell.get("op", "full"), "ret": cell.get("ret", "fresh")}
+           "op": cell.get("op", "full"), "ret": cell.get("ret", "fresh"),
+           "lo": cell.get("lo", "std"), "po": cell.get("po", "std")}
     st, kinds, obs = _op_estimate(size, k, cfg, "MAP")
     res.transitions += 1
     res.state("MAP:%s" % st)
